@@ -32,9 +32,13 @@ CLAIMED.update({
          "Seeded search over (1..8 callers x 1..4 calls, per-call reply behaviour and delay relative to the caller's timeout, network behaviour, yield-point subset, optional connection fault). Oracle over the recorded history: every Ok is a reply the peer addressed to that call's own reply pid, no reply is returned twice, error kinds are admissible for what was injected, the outstanding-call table is empty at quiescence, a fresh call succeeds once faults stopped. Sampling, not proof.",
          "Trusted: tokio (paused clock, oneshot, Mutex), dashmap, the rex/peer model and its independent frame reader; single runtime thread per run (interleavings only at await/yield points).",
          "DESIGN.md section 3, C17"),
+ "C19": ("deterministic simulation: scripted peer sends inbound frame sequences (routable, unroutable, undecodable, ticks, quiet gaps up to 10 simulated minutes, over-long length, premature close, reset) to a real Node with recorder processes under simulated time; routing history and connections() membership over time are checked",
+         "Seeded search over inbound frame scripts x recipients (live, dead, never existing, registered/unregistered names, outstanding rpc) x tick period x network behaviour x fatal event x reconnect. Oracle: per-recipient delivered sequence equals the script's expectation exactly (fields intact, order, exactly once); at every checkpoint before a fatal event the connection is registered and a probe rpc gets through; after a fatal event it is deregistered within a bound; reconnect works. Sampling, not proof.",
+         "Trusted: tokio paused clock/scheduler, the peer script and its independent encoder; mid-frame delays are kept below the read timeout.",
+         "DESIGN.md section 3, C19"),
 })
 
-PENDING = {k: 'check under construction in this session (simulation applies; see DESIGN.md); not claimed yet' for k in ['C06','C07','C09','C14','C16','C18','C19']}
+PENDING = {k: 'check under construction in this session (simulation applies; see DESIGN.md); not claimed yet' for k in ['C06','C07','C09','C14','C16','C18']}
 
 def main():
     hooks = subprocess.run(["git","-C","/repo","log","--format=%H %s","--grep=^verif hook"],capture_output=True,text=True).stdout.strip().splitlines()
